@@ -52,6 +52,7 @@ type Profile struct {
 	Diff            bool   `json:"diff,omitempty"`               // C08: differential comparison with canonical builds
 	EarlyCloseOneIn int    `json:"early_close_one_in,omitempty"` // with EarlyClose: one run in n closes early (default 2 in 3)
 	AcrossClose     bool   `json:"across_close,omitempty"`       // C04: in half of the runs held Readers stay open over Writer.Close and are read again afterwards
+	ForceMem        bool   `json:"force_mem,omitempty"`          // in-memory directory in every run
 	SnapReads       bool   `json:"snap_reads,omitempty"`         // fresh Reader + full read + close as one client operation
 
 	PostRun func(r *Run, res *Result) `json:"-"`
@@ -94,6 +95,9 @@ func decodeKnobs(p *Profile, t *Tape) *Knobs {
 	k := &Knobs{W: map[string]int{}}
 	k.Dir = "fs"
 	if !p.FSOnly && t.Chance(1, 4, "k.dir") {
+		k.Dir = "mem"
+	}
+	if p.ForceMem {
 		k.Dir = "mem"
 	}
 	k.SegVer = 1 + t.Draw(2, "k.segver")
